@@ -290,6 +290,8 @@ def feasible_from(body, starts, ev=None):
                     return 1   # ControlFlow::Break
                 if y[0] == "agg" and y[2] in ("Ok", "Some"):
                     return 0   # ControlFlow::Continue
+                if y[0] == "call" and (y[1] or "").endswith("::from_residual"):
+                    return 1   # an error being propagated (`?` in an inlined helper) stays an error at the caller's `?`
         return None
     seen = set()
     for _ in range(5):
